@@ -8,6 +8,7 @@
 package main
 
 import (
+	"bytes"
 	"encoding/hex"
 	"fmt"
 	"math/rand"
@@ -60,6 +61,14 @@ type caseRec struct {
 	AltNull  bool   `json:"alt_null,omitempty"`
 	AltG     string `json:"alt_g,omitempty"`
 	AltErr   string `json:"alt_err,omitempty"`
+	// Encode must not modify its source: the Go value re-abstracted AFTER Encode (and, inside the modelled universe, re-printed) equals what
+	// it was built from; a second Encode of the same Go value gives the same outcome and (ordered sources) the same bytes; the decoded
+	// value also equals the source as it is after encoding
+	SrcIntact   bool   `json:"src_intact"`
+	SrcAfterCoq string `json:"src_after_coq,omitempty"`
+	Enc2Same    bool   `json:"enc2_same"`
+	Enc2Hex     string `json:"enc2_hex,omitempty"`
+	RtEqualSrc  bool   `json:"rt_equal_src"`
 }
 
 var altTurn int
@@ -164,6 +173,30 @@ func runCase(id string, t *ctype, r *rep, a *aval, ver primitive.ProtocolVersion
 		rec.EncClass, rec.Err = "panic", msg
 		return rec
 	}
+	// the source after Encode, and a second Encode of the very same Go value
+	after := abs(t, src)
+	rec.SrcIntact = aEqual(after, a)
+	if rec.SrcIntact && rec.SrcG != "" {
+		rec.SrcIntact = gvalOf(t, r.gt, src) == rec.SrcG
+	}
+	if !rec.SrcIntact {
+		rec.SrcAfterCoq = after.canon().coq()
+	}
+	{
+		var enc2 []byte
+		var eerr2 error
+		if p, _ := safely(func() { enc2, eerr2 = codec.Encode(src.Interface(), ver) }); p {
+			rec.Enc2Hex = "panic"
+		} else {
+			rec.Enc2Same = (eerr == nil) == (eerr2 == nil) && (enc == nil) == (enc2 == nil) && len(enc) == len(enc2) && (rec.Unordered || bytes.Equal(enc, enc2))
+			if !rec.Enc2Same && len(enc2) <= 3000 {
+				rec.Enc2Hex = hex.EncodeToString(enc2)
+				if eerr2 != nil {
+					rec.Enc2Hex = "error: " + eerr2.Error()
+				}
+			}
+		}
+	}
 	switch {
 	case eerr != nil:
 		rec.EncClass, rec.Err = "err", eerr.Error()
@@ -193,6 +226,7 @@ func runCase(id string, t *ctype, r *rep, a *aval, ver primitive.ProtocolVersion
 		}
 		rec.DecCoq = d.canon().coq()
 		rec.RtEqual = aEqual(d, a) && (wasNull == (a.kind == "null" || enc == nil))
+		rec.RtEqualSrc = aEqual(d, after)
 	}
 	// same representation
 	dt := r.gt
